@@ -33,6 +33,7 @@ def dec(v):
 # ---------------------------------------------------------------------------
 def step(self, op):
     self.step_no += 1
+    self.failed_call_ctx = None
     kind = op['op']
     if self.diverged: return 'diverged'
     if self.session is None:
@@ -49,12 +50,16 @@ def step(self, op):
     if self.session is not None and not self.diverged:
         self._learn_auto_pks(strict=False)
         d = self.walk_model()
-        if not (d and out.startswith('raised') and kind in MOD_OPS):
-            # (after a failed call that changed the session the atomic monitor owns the report)
-            try: self.walk()
-            except Exception as e:
-                self.c('walker_error.' + type(e).__name__)
-                raise
+        try: self.walk()
+        except Exception as e:
+            self.c('walker_error.' + type(e).__name__)
+            raise
+        if self.pending_taint_stop:
+            self.pending_taint_stop = False
+            try: self.orm.rollback()
+            except Exception as e2: self.c('rollback_after_taint_raised.' + type(e2).__name__)
+            self._reset_after_rollback()
+            d = None
         if d:
             det = {'op': op, 'outcome': out, 'diffs': [list(map(str, x)) for x in d[:6]]}
             if out.startswith('raised') and kind in MOD_OPS:
@@ -65,6 +70,7 @@ def step(self, op):
                             'model_expected_refusal': self.last_model.get('refusal')})
                 self.report('atomic', 'state_changed_after_failed_call', det)
                 self.tainted = mech
+                self.tainted_ctx = dict(self.failed_call_ctx or {})
                 if self.stop_on_taint:
                     try: self.orm.rollback()
                     except Exception as e2: self.c('rollback_after_taint_raised.' + type(e2).__name__)
@@ -225,6 +231,8 @@ def _modify(self, op):
         return 'applied'
     # pony raised
     name = type(exc).__name__
+    self.failed_call_ctx = {'exc': name, 'cascade_cycle': bool(m2.cascade_revisit),
+                            'model_expected_refusal': refuse.kind if refuse else None, 'op': kind}
     self.c('raised.%s.%s' % (kind, name))
     self.errlog.append((kind, name, str(exc)[:160]))
     cache = self.cache()
@@ -250,12 +258,11 @@ def _modify(self, op):
                          'model_expected_refusal': refuse.kind if refuse else None, 'mechanism': mech,
                          'cascade_cycle': bool(m2.cascade_revisit)})
             self.tainted = mech
+            self.tainted_ctx = dict(self.failed_call_ctx or {})
             if self.stop_on_taint:
-                # the session no longer is what the model thinks it is: end it without committing
-                try: self.orm.rollback()
-                except Exception as e2: self.c('rollback_after_taint_raised.' + type(e2).__name__)
-                self._reset_after_rollback()
-                self.tainted = None
+                # the session no longer is what the model thinks it is: step() lets the walkers look at it
+                # (index / reverse monitors own what they see) and then ends it without committing
+                self.pending_taint_stop = True
                 return 'raised_tainted_stop'
     if refuse is None:
         dup = bool(m2.dups())
@@ -363,8 +370,16 @@ def _tx(self, op):
         if cycle: self.c('fkorder.cycle_cases')
         elif self.unflushed: self.c('fkorder.orderable_flushes_with_inserts')
         exc = None
+        one = op.get('oid') if kind == 'flush' else None      # obj.flush() of a single object
+        if one is not None:
+            if one not in self.working.objs: return 'skipped_dead_target'
+            target = self.h.get(one)
+            if target is None: return 'skipped_no_handle'
+            # only a conflict this very object takes part in (with partners that are already written) must be reported
+            dups = [d for d in dups if one in d[3] and all(x == one or x not in self.unflushed for x in d[3])]
         try:
-            if kind == 'flush': orm.flush()
+            if one is not None: target.flush()
+            elif kind == 'flush': orm.flush()
             elif kind == 'commit': orm.commit()
             else: self._exit_session()
         except Exception as e:
@@ -372,10 +387,14 @@ def _tx(self, op):
         self.last_exc = exc
         if exc is None:
             if dups:
-                self.c('conflict.judged'); self.report('conflict', 'duplicate_key_flushed_without_error', {'op': kind, 'dups': repr(dups[:2])})
+                self.c('conflict.judged'); self.report('conflict', 'duplicate_key_flushed_without_error', {'op': op, 'dups': repr(dups[:2])})
                 self.diverged = 'duplicates flushed'
                 return 'diverged'
-            self._learn_auto_pks()
+            self._learn_auto_pks(strict=one is None)
+            if one is not None:
+                self.unflushed.discard(one)
+                self.pending_dups = bool(self.working.dups())
+                return 'ok'
             self.unflushed = set()
             if cycle: self.c('fkorder.cycle_flushed_ok')
             if kind in ('commit', 'end'):
@@ -396,6 +415,13 @@ def _tx(self, op):
             else: self.report('fkorder', 'cyclic_dependency_error_without_cycle', {'op': kind, 'msg': msg[:200]})
         if dups: self.c('conflict.reported_at_flush'); self.c('conflict.judged')
         else: self.c('unexpected_error.%s.%s' % (kind, name))
+        cache = self.cache()
+        if kind == 'flush' and op.get('keep_going') and dups and cache is not None and cache.is_alive:
+            # the program catches the conflict reported by flush() and carries on inside the same session: the
+            # conflict is still pending, so the next flush / commit has to report it again
+            self.c('conflict.kept_going_after_failed_flush')
+            self.pending_dups = True
+            return 'raised_conflict_kept_going'
         # the session's transaction is over: make sure it is, then nothing of it may be visible
         try:
             if self.session is not None and kind != 'end': orm.rollback()
@@ -618,6 +644,9 @@ def install():
     Engine._note_seed_reassign = _note_seed_reassign
     Engine.unflushed = set()
     Engine.last_model = {}
+    Engine.pending_taint_stop = False
+    Engine.failed_call_ctx = None
+    Engine.tainted_ctx = None
     Engine._learn_auto_pks = _learn_auto_pks
     Engine._judge_read = _judge_read
     Engine._obs = _obs
@@ -742,7 +771,14 @@ class Gen(object):
         """next operation given the current model state (None if nothing sensible)."""
         r = self.rng; eng = self.eng; w = eng.working
         if eng.pending_dups and eng.session is not None:
-            return {'op': r.choice(['flush', 'commit', 'end', 'flush'])}
+            k = r.choice(['flush', 'commit', 'end', 'flush', 'flush'])
+            op = {'op': k}
+            if k == 'flush':
+                if r.random() < 0.5: op['keep_going'] = True
+                if r.random() < 0.4:
+                    involved = sorted(set(x for d in w.dups() for x in d[3] if x in eng.unflushed and x in eng.h))
+                    if involved: op['oid'] = r.choice(involved)
+            return op
         for _ in range(20):
             kind = r.choices(self.kinds, [self.w[k] for k in self.kinds])[0]
             op = self._gen_kind(kind)
@@ -755,6 +791,9 @@ class Gen(object):
         if kind == 'create': return self.create_op()
         if kind in TX_OPS:
             if eng.session is None: return None
+            if kind == 'flush' and r.random() < 0.15:
+                c = sorted(x for x in eng.unflushed if x in eng.h and x in w.objs)
+                if c: return {'op': 'flush', 'oid': r.choice(c)}
             return {'op': kind}
         if kind in ('selectall', 'count'):
             return {'op': kind, 'ent': r.choice(self.entity_names())}
@@ -812,8 +851,19 @@ class Gen(object):
             k = r.sample(cands, min(len(cands), r.randint(1, 3)))
             # at most one relationship attribute per set(): interactions between two relationship
             # arguments of one call are not specified anywhere
-            rels = [a for a in k if a.kind != 'scalar']
-            k = [a for a in k if a.kind == 'scalar'] + rels[:1]
+            # relationship arguments of one set() call must belong to different relationships with different
+            # targets (the interplay of two arguments touching the same objects is not specified anywhere)
+            rels = []
+            for a in k:
+                if a.kind == 'scalar': continue
+                rv = eng.rules.rev(a)
+                if any(a.target == b.target or (rv.owner, rv.name) == (b.owner, b.name) or a.target == o.ent for b in rels): continue
+                if a.target == o.ent and rels: continue
+                rels.append(a)
+            if r.random() < 0.35:
+                more = [a for a in attrs if a.kind == 'set' and a not in rels and all(a.target != b.target for b in rels) and a.target != o.ent]
+                if more: rels.append(r.choice(more))
+            k = [a for a in k if a.kind == 'scalar'] + rels[:3]
             return {'op': 'setmany', 'oid': oid, 'kw': {a.name: self.value_for(a, oid) for a in k}}
         sets = [a for a in attrs if a.kind == 'set']
         if not sets: return None
